@@ -460,6 +460,26 @@ fn seeds(w: &World) -> Vec<(&'static str, Vec<u8>)> {
   add("method", r#"{"id":"did:example:1#k2","controller":"did:example:1","type":"Ed25519VerificationKey2018","publicKeyMultibase":"zH3C2AVvLMv6gmMNam3uVAjZpfkcJCwDwnZn6z3wXmqPV"}"#);
   add("method", "\"did:example:1#k2\"");
   add("service", &dv["service"][0].to_string());
+  // revocation services whose endpoint is a well-formed URL shorter than, as long as, or barely longer than the data-URL
+  // header the decoder looks for (37 bytes): every length a slice or split could be written against
+  for ep in [
+    "data:,",
+    "a:b",
+    "https://example.com/",
+    "data:application/octet-stream",
+    "data:application/octet-stream;base64",
+    "data:application/octet-stream;base64,",
+    "data:application/octet-stream;base64,e",
+    "data:application/octet-stream;base65,eJyzMmAAAwADKABr",
+    "data:application/octet-stream;base64é",
+    "data:application/octet-stream;base6é,eJyzMmAAAwADKABr",
+    "DATA:application/octet-stream;base64,eJyzMmAAAwADKABr",
+    "did:example:1234567890123456789012345",
+    "did:example:12345678901234567890123456",
+  ] {
+    add("service", &format!(r#"{{"id":"did:example:1#revocation","type":"RevocationBitmap2022","serviceEndpoint":"{ep}"}}"#));
+    add("document", &format!(r#"{{"id":"did:example:1","service":[{{"id":"did:example:1#revocation","type":"RevocationBitmap2022","serviceEndpoint":"{ep}"}}]}}"#));
+  }
   add("service", r#"{"id":"did:example:1#ld","type":"LinkedDomains","serviceEndpoint":{"origins":["https://foo.example.com","https://bar.example.com/"]}}"#);
   add("service", r#"{"id":"did:example:1#lvp","type":"LinkedVerifiablePresentation","serviceEndpoint":["https://foo.example.com/vp.jwt"]}"#);
   add("document", &doc_json);
